@@ -24,6 +24,7 @@ META = {
                 "memory.MemoryMap.freeze", "memory.MemoryMap._compute_addr_range", "memory.MemoryMap._align_up",
                 "memory.MemoryMap.resources", "memory.MemoryMap.windows", "memory.MemoryMap.all_resources",
                 "memory._RangeMap.insert", "memory._RangeMap.overlaps", "memory._RangeMap.items"],
+    "also": 'every call is also replayed on a reference map that never saw the refused calls (equal outcomes proved); names from a pool of two; maps of 12/16/33/64 address bits; true division kept exact + boundary-biased concrete replay',
     "bounds": "map addr_width 3-4 (thorough 2-6), map alignment 0-2; call sequences of length 2 exhaustively over 14 "
               "call kinds + seeded sample of length 3 (thorough: length 3 exhaustively over 9 kinds + sample of "
               "length 4); addresses and sizes symbolic integers in [0, 2^aw+2]; per-call alignment 0-2; windows of "
